@@ -22,6 +22,10 @@ type seed struct {
 }
 
 var seeds = []seed{
+	{"roaringArray64.equals compares the receiver's keys with themselves", "EQ1", "roaring64/roaringarray64.go", "\t\tfor i, k := range ra.keys {\n\t\t\tif k != srb.keys[i] {", "\t\tkeys := ra.keys\n\t\tfor i, k := range ra.keys {\n\t\t\tif k != keys[i] {", "roaringArray64).equals"},
+	{"TransposeWithCounts hands found-set and filter-set over crossed", "SW1", "roaring64/bsi64.go", "parallelExecutorBSIResults(parallelism, b, transposeWithCounts, foundSet, filterSet, true)", "parallelExecutorBSIResults(parallelism, b, transposeWithCounts, filterSet, foundSet, true)", "TransposeWithCounts|call of parallelExecutorBSIResults"},
+	{"the reusable 32-bit unset iterator is not rewound", "R2", "roaring.go", "\tiui.end = end\n\tiui.containerIndex = 0\n", "\tiui.end = end\n", "unsetIterator).Initialize|rewinds containerIndex"},
+	{"the reusable 64-bit many-iterator is not rewound", "R2", "roaring64/iterables64.go", "func (ii *manyIntIterator) Initialize(a *Bitmap) {\n\tii.pos = 0\n", "func (ii *manyIntIterator) Initialize(a *Bitmap) {\n", "manyIntIterator).Initialize|rewinds pos"},
 	{"SumBigValues computes the sign plane's weight in a machine word", "U7", "roaring64/bsi64.go", "\tsum.Sub(sum, planeTerm(b.BitCount()))\n", "\tsum.Sub(sum, big.NewInt(int64(foundSet.AndCardinality(&b.bA[b.BitCount()])<<uint(b.BitCount()))))\n", "SumBigValues|word shift"},
 	{"byteSliceAsUint64Slice converts the pointer of an empty slice", "UNS2", "serialization_littleendian.go", "\tif len(slice) == 0 {\n\t\t// nothing to view: the (possibly shorter) allocation behind an empty slice must not be\n\t\t// reinterpreted as a wider element\n\t\treturn nil\n\t}\n\tptr := unsafe.SliceData(slice)\n\treturn unsafe.Slice((*uint64)", "\tptr := unsafe.SliceData(slice)\n\tif ptr == nil {\n\t\treturn nil\n\t}\n\treturn unsafe.Slice((*uint64)", "byteSliceAsUint64Slice"},
 	{"RemoveRange clamps the end after comparing it with the start", "U6", "roaring.go", "\t\trangeEnd = uint64(0x100000000)\n\t\tif rangeStart >= rangeEnd {\n\t\t\t// the whole range lies beyond the 32-bit universe\n\t\t\treturn\n\t\t}\n", "\t\trangeEnd = uint64(0x100000000)\n", "RemoveRange|rangeStart narrowed"},
